@@ -1,6 +1,7 @@
 package main
 
 import (
+	"go/constant"
 	"strings"
 	"fmt"
 	"go/token"
@@ -689,4 +690,384 @@ func ruleGENSKIP(p *Program, r *Reporter) {
 	if n < 1 {
 		r.Anchor(id, "Generate: successful return that bypasses the file write")
 	}
+}
+
+// ---------------------------------------------------------------------------
+// MAX-ONE — sibling agreement on what a "single-valued set" is. The mapper
+// (NativeType), the generator (fieldType) and the reference tracker all split
+// set columns at max == 1: such a column is an optional/scalar and is merged
+// as an atomic value, every other set (bounded or unlimited) is a slice and is
+// merged element-wise. A test in the update engine that splits at
+// max == unlimited treats bounded multi-valued sets as atomic values.
+// Structural form: in package updates every comparison of ColumnType.Max()
+// with a constant compares with 1.
+
+func ruleMAXONE(p *Program, r *Reporter) {
+	const id = "MAX-ONE"
+	n := 0
+	for _, fn := range p.srcFuncs {
+		if pkgOf(fn) != "updates" {
+			continue
+		}
+		for _, b := range fn.Blocks {
+			for _, ins := range b.Instrs {
+				bo, ok := ins.(*ssa.BinOp)
+				if !ok {
+					continue
+				}
+				switch bo.Op {
+				case token.EQL, token.NEQ, token.LSS, token.LEQ, token.GTR, token.GEQ:
+				default:
+					continue
+				}
+				isMax := func(v ssa.Value) bool {
+					c, ok := v.(*ssa.Call)
+					if !ok {
+						return false
+					}
+					sc := c.Call.StaticCallee()
+					return sc != nil && sc.Name() == "Max" && sc.Signature.Recv() != nil && isNamed(deref(sc.Signature.Recv().Type()), repoMod+"/ovsdb", "ColumnType")
+				}
+				var other ssa.Value
+				if isMax(bo.X) {
+					other = bo.Y
+				} else if isMax(bo.Y) {
+					other = bo.X
+				}
+				if other == nil {
+					continue
+				}
+				ok2, what := false, ""
+				switch k := other.(type) {
+				case *ssa.Const:
+					if k.Value == nil {
+						continue
+					}
+					v, exact := constant.Int64Val(k.Value)
+					ok2, what = exact && v == 1, k.Value.String()
+				case *ssa.UnOp:
+					// a package-level value such as ovsdb.Unlimited
+					g, isGlobal := k.X.(*ssa.Global)
+					if !isGlobal {
+						continue
+					}
+					what = g.Name()
+				default:
+					continue
+				}
+				n++
+				r.Ob(id, funcName(fn), "Max() compared with 1", bo.Pos(), ok2, true,
+					ifs(ok2, "single-valued sets are split off at max == 1, as in the mapper and the generator", fmt.Sprintf("Max() is compared with %s: set columns with a bounded max other than 1 fall on the wrong side (they are slices for the mapper but are merged as atomic values here), so two changes of one such column in a transaction lose elements in update2/update3 notifications", what)))
+			}
+		}
+	}
+	if n < 2 {
+		r.Anchor(id, fmt.Sprintf("package updates: %d constant comparisons of ColumnType.Max(), expected >= 2", n))
+	}
+}
+
+// ---------------------------------------------------------------------------
+// G-GLOBAL — library code keeps no mutable package-level state: outside
+// package initialisation no function stores into a package-level variable, or
+// into a slice/map/array held by one. (Encoders sharing a package-level
+// scratch buffer hand one goroutine's data to another.)
+
+func globalWrites(p *Program, report func(fn *ssa.Function, ins ssa.Instruction, g *ssa.Global)) {
+	rootGlobal := func(v ssa.Value) *ssa.Global {
+		for i := 0; i < 6; i++ {
+			switch x := v.(type) {
+			case *ssa.Global:
+				return x
+			case *ssa.FieldAddr:
+				v = x.X
+			case *ssa.IndexAddr:
+				v = x.X
+			case *ssa.UnOp:
+				v = x.X
+			case *ssa.Slice:
+				v = x.X
+			default:
+				return nil
+			}
+		}
+		return nil
+	}
+	for _, fn := range p.srcFuncs {
+		if fn.Name() == "init" || strings.HasPrefix(fn.Name(), "init#") || strings.HasPrefix(pkgOf(fn), "cmd/") {
+			continue // package initialisation; command-line programs own their process
+		}
+		for _, b := range fn.Blocks {
+			for _, ins := range b.Instrs {
+				switch x := ins.(type) {
+				case *ssa.Store:
+					if g := rootGlobal(x.Addr); g != nil {
+						report(fn, ins, g)
+					}
+				case *ssa.MapUpdate:
+					if g := rootGlobal(x.Map); g != nil {
+						report(fn, ins, g)
+					}
+				case *ssa.Call:
+					if bi, ok := x.Call.Value.(*ssa.Builtin); ok && (bi.Name() == "append" || bi.Name() == "copy" || bi.Name() == "delete") && len(x.Call.Args) > 0 {
+						if g := rootGlobal(x.Call.Args[0]); g != nil && bi.Name() != "append" {
+							report(fn, ins, g)
+						}
+					}
+				}
+			}
+		}
+	}
+}
+
+func ruleGGLOBAL(p *Program, r *Reporter) {
+	const id = "G-GLOBAL"
+	n := 0
+	globalWrites(p, func(fn *ssa.Function, ins ssa.Instruction, g *ssa.Global) {
+		n++
+		r.Ob(id, funcName(fn), "write to package-level "+g.Name(), ins.Pos(), false, true,
+			funcName(fn)+" writes the package-level variable "+g.Name()+" (or a container it holds): concurrent callers share that storage, so one goroutine's value is overwritten or handed out by another")
+	})
+	// the census itself is the obligation: number of package-level variables examined
+	ng := 0
+	for _, sp := range p.SSAPkgs {
+		for _, m := range sp.Members {
+			if _, ok := m.(*ssa.Global); ok {
+				ng++
+			}
+		}
+	}
+	r.Ob(id, "all packages", "no writer of package-level state outside init", token.NoPos, true, ng > 0,
+		fmt.Sprintf("%d package-level variables, %d writes outside package initialisation", ng, n))
+}
+
+// ---------------------------------------------------------------------------
+// G-LOOPVAR — a goroutine started inside a loop is not handed the address of
+// a variable that the loop overwrites on its next turn (the module's go
+// directive predates per-iteration loop variables, so `for _, x := range` has
+// one x). Structural form: no argument or captured variable of a `go`
+// statement inside a loop derives from a cell allocated outside that loop and
+// stored to inside it.
+
+func ruleGLOOPVAR(p *Program, r *Reporter) {
+	const id = "G-LOOPVAR"
+	n := 0
+	rootCell := func(v ssa.Value) *ssa.Alloc {
+		for i := 0; i < 6; i++ {
+			switch x := v.(type) {
+			case *ssa.Alloc:
+				return x
+			case *ssa.FieldAddr:
+				v = x.X
+			case *ssa.IndexAddr:
+				v = x.X
+			case *ssa.MakeInterface:
+				v = x.X
+			case *ssa.ChangeType:
+				v = x.X
+			default:
+				return nil
+			}
+		}
+		return nil
+	}
+	for _, fn := range p.srcFuncs {
+		for _, b := range fn.Blocks {
+			h := loopHeaderOf(b)
+			if h == nil {
+				continue
+			}
+			for _, ins := range b.Instrs {
+				g, ok := ins.(*ssa.Go)
+				if !ok {
+					continue
+				}
+				n++
+				var vals []ssa.Value
+				vals = append(vals, g.Call.Args...)
+				if mc, ok := g.Call.Value.(*ssa.MakeClosure); ok {
+					vals = append(vals, mc.Bindings...)
+				}
+				bad := ""
+				for _, v := range vals {
+					cell := rootCell(v)
+					if cell == nil || inLoopOf(h, cell.Block()) {
+						continue
+					}
+					// is the cell overwritten inside the loop?
+					if refs := cell.Referrers(); refs != nil {
+						for _, rf := range *refs {
+							if st, ok := rf.(*ssa.Store); ok && st.Addr == ssa.Value(cell) && inLoopOf(h, st.Block()) {
+								bad = cell.Comment
+							}
+						}
+					}
+				}
+				r.Ob(id, funcName(fn), "goroutine started in a loop", g.Pos(), bad == "", true,
+					ifs(bad == "", "the goroutine receives values, or variables the loop does not overwrite", "the goroutine is handed the address of "+bad+", a variable declared outside the loop body that the next iteration overwrites: all goroutines may see the last element"))
+			}
+		}
+	}
+	if n == 0 {
+		r.Info("G-LOOPVAR: no goroutine is started inside a loop")
+	}
+}
+
+// ---------------------------------------------------------------------------
+// R-ITER — each operation of a transaction is merged with its own update: the
+// update handed to Merge / ApplyCacheUpdate inside the per-operation loop of
+// Transaction.Transact is produced in the same iteration. A value that reaches
+// those calls through a φ at the loop header was left over from an earlier
+// operation (select, wait, comment produce none) and is merged a second time,
+// which cancels set/map differences against themselves.
+
+func ruleRITER(p *Program, r *Reporter) {
+	const id = "R-ITER"
+	fn := p.Fn("database/transaction", "Transaction", "Transact")
+	if fn == nil {
+		r.Anchor(id, "transaction.(*Transaction).Transact")
+		return
+	}
+	n := 0
+	for _, b := range fn.Blocks {
+		h := loopHeaderOf(b)
+		if h == nil {
+			continue
+		}
+		for _, ins := range b.Instrs {
+			c, ok := ins.(*ssa.Call)
+			if !ok {
+				continue
+			}
+			sc := c.Call.StaticCallee()
+			if sc == nil || (sc.Name() != "Merge" && sc.Name() != "ApplyCacheUpdate") {
+				continue
+			}
+			// the ModelUpdates argument: a load through a pointer produced by the operation
+			for _, a := range c.Call.Args[1:] {
+				if mi, isMI := a.(*ssa.MakeInterface); isMI {
+					a = mi.X
+				}
+				if !isNamed(a.Type(), repoMod+"/updates", "ModelUpdates") {
+					continue
+				}
+				ld, ok := a.(*ssa.UnOp)
+				if !ok {
+					continue
+				}
+				n++
+				carried := loopCarried(ld.X, h, map[ssa.Value]bool{})
+				r.Ob(id, funcName(fn), "update of "+sc.Name()+" produced in this iteration", c.Pos(), !carried, true,
+					ifs(!carried, "the update handed to "+sc.Name()+" is produced by this iteration's operation", "the update handed to "+sc.Name()+" can be the one left over from an earlier operation (it reaches this call through a variable that lives across iterations): operations that produce no update re-merge the previous one, and its set/map differences cancel against themselves"))
+			}
+		}
+	}
+	if n < 2 {
+		r.Anchor(id, fmt.Sprintf("Transact: %d Merge/ApplyCacheUpdate calls with an update argument inside the operation loop, expected >= 2", n))
+	}
+}
+
+// loopCarried: can v be a value from an earlier iteration of the loop headed by h?
+// True when v is (or is fed by) a φ at h with a non-nil incoming value on a back
+// edge, or a load of a cell allocated outside the loop and stored to inside it.
+func loopCarried(v ssa.Value, h *ssa.BasicBlock, seen map[ssa.Value]bool) bool {
+	if v == nil || seen[v] {
+		return false
+	}
+	seen[v] = true
+	switch x := v.(type) {
+	case *ssa.Phi:
+		if x.Block() == h {
+			for i, e := range x.Edges {
+				pred := h.Preds[i]
+				if !h.Dominates(pred) {
+					continue // entry edge
+				}
+				if k, isC := e.(*ssa.Const); isC && k.IsNil() {
+					continue
+				}
+				return true
+			}
+			return false
+		}
+		for _, e := range x.Edges {
+			if loopCarried(e, h, seen) {
+				return true
+			}
+		}
+	case *ssa.UnOp:
+		if al, ok := x.X.(*ssa.Alloc); ok && !inLoopOf(h, al.Block()) {
+			if refs := al.Referrers(); refs != nil {
+				for _, rf := range *refs {
+					if st, ok := rf.(*ssa.Store); ok && st.Addr == ssa.Value(al) && inLoopOf(h, st.Block()) {
+						// stored in the loop and not reset at the top of each iteration
+						reset := false
+						for _, rf2 := range *refs {
+							if st2, ok := rf2.(*ssa.Store); ok && st2.Addr == ssa.Value(al) && inLoopOf(h, st2.Block()) {
+								if k, isC := st2.Val.(*ssa.Const); isC && k.IsNil() && st2.Block().Dominates(x.Block()) {
+									reset = true
+								}
+							}
+						}
+						if !reset {
+							return true
+						}
+					}
+				}
+			}
+		}
+	case *ssa.Extract:
+		return false
+	}
+	return false
+}
+
+// ---------------------------------------------------------------------------
+// A2-INPLACE — a row object stored in the cache is replaced, never rewritten:
+// nothing in package cache passes a value read from RowCache.cache as the
+// destination of model.CloneInto (events hand the previous row object to
+// handlers as `old`; rewriting it in place makes `old` show the new state).
+
+func ruleA2INPLACE(p *Program, r *Reporter) {
+	const id = "A2-INPLACE"
+	rows := p.Field("cache", "RowCache", "cache")
+	if rows == nil {
+		r.Anchor(id, "cache.RowCache.cache")
+		return
+	}
+	n := 0
+	for _, fn := range p.srcFuncs {
+		if pkgOf(fn) != "cache" {
+			continue
+		}
+		for _, b := range fn.Blocks {
+			for _, ins := range b.Instrs {
+				c, ok := ins.(*ssa.Call)
+				if !ok {
+					continue
+				}
+				sc := c.Call.StaticCallee()
+				if sc == nil || sc.Name() != "CloneInto" || len(c.Call.Args) != 2 {
+					continue
+				}
+				n++
+				dst := c.Call.Args[1]
+				bad := false
+				for i := 0; i < 4; i++ {
+					switch x := dst.(type) {
+					case *ssa.Extract:
+						dst = x.Tuple
+						continue
+					case *ssa.Lookup:
+						if rootField(x.X, 0) == rows {
+							bad = true
+						}
+					}
+					break
+				}
+				r.Ob(id, funcName(fn), "destination of CloneInto", c.Pos(), !bad, true,
+					ifs(!bad, "the destination is not a cached row", "a row object held by the cache is overwritten in place: the `old` model already handed to (or queued for) event handlers, and every reader holding it, now shows the new state"))
+			}
+		}
+	}
+	r.Ob(id, "package cache", "cached rows are replaced, not rewritten", token.NoPos, true, true, fmt.Sprintf("%d CloneInto calls in package cache examined", n))
 }
